@@ -261,3 +261,29 @@ def assigned_targets(stmt: ast.AST) -> list[ast.AST]:
         else:
             out.append(t)
     return out
+
+
+def polarity_atoms(test: ast.AST, positive: bool = True):
+    """Yields (atom, positive) for the atoms of a boolean test: descends through `not` (flipping) and and/or (keeping);
+    an atom is any other expression.  `if not (a or not b)` -> (a, False), (b, True)."""
+    if isinstance(test, ast.UnaryOp) and isinstance(test.op, ast.Not):
+        yield from polarity_atoms(test.operand, not positive)
+    elif isinstance(test, ast.BoolOp):
+        for v in test.values:
+            yield from polarity_atoms(v, positive)
+    else:
+        yield test, positive
+
+
+def atom_polarity(test: ast.AST, pred) -> bool | None:
+    """Polarity of the (first) atom of `test` that satisfies pred(atom) or contains a node satisfying it; None if absent."""
+    for a, pos in polarity_atoms(test):
+        if pred(a) or any(pred(x) for x in ast.walk(a)):
+            # comparisons with != / not in / is not count as a negation of the positive form
+            return pos
+    return None
+
+
+def compare_positive(cmp_: ast.Compare) -> bool:
+    """True for ==, in, is, <, ... ; False for !=, not in, is not."""
+    return not isinstance(cmp_.ops[0], (ast.NotEq, ast.NotIn, ast.IsNot))
